@@ -18,13 +18,21 @@ Observation points (boundaries only)
 
 Oracle clauses (signature prefix)
   <proto>/<kind>/lost-after-success      the client call reported success, the link is idle, the peer application
-                                         never got the message (.../request-incomplete-on-wire: the call ended by its
-                                         time-out and fewer octets than the request crossed the idle link)
+                                         never got the message.  A call that returned success only because no response
+                                         arrived within its time-out (put_octets does that) is judged on the same two
+                                         facts - the call completed with success, the quiescent link (below) never
+                                         delivered - and the wire tells the mechanism apart:
+                                         .../request-incomplete-on-wire   fewer octets than the request crossed the link
+                                         .../request-complete-on-wire     the whole request crossed, nobody delivered it
+                                         .../no-response                  concurrent batch, frames not attributable
   <proto>/<kind>/duplicate-delivery      the peer application got the message more than once
   <proto>/<kind>/stale-redelivery        instead of the message the peer application got an earlier message again
   <proto>/<kind>/delivered-altered/<how> the peer application got other octets (truncated, appended, content, length)
   snep/<kind>/app-octets-differ          process_put/get_request records do not encode to the octets given
   snep/<kind>/refused-within-limit/<outcome>   a message not larger than the acceptable length was refused
+                                         (get: .../returned-None/request-complete-on-wire | no-response when the call
+                                         gave up, the whole request had crossed the quiescent link and the server
+                                         application was never called with it)
   snep/put|get/oversize/<delivered|delivered-partial|reported-success|outcome-..|no-error-response-on-wire>
   snep/get/response-differs/<how>, snep/get/excess/<delivered|outcome-..|no-error-response-on-wire>
   snep/get/response-incomplete-on-wire, handover/response/incomplete-on-wire   (time-out + idle link + wire content)
@@ -32,6 +40,12 @@ Oracle clauses (signature prefix)
   <proto>/unexpected-delivery/<how>      an application call nobody asked for
   escape/<proto>/<op>/<exception@where>  a client call raised something else than the documented SnepError
   stuck/<proto>/<op>/server-thread-died/<exception@where>   only with a recorded exception in a server thread
+
+Quiescence ("never" instead of "not yet", no clock involved): the link is alive, the wire carried only SYMM for
+SETTLE_SYMM consecutive frames twice in a row with no other frame in between, and at both looks every thread that
+is inside nfc/snep/server.py or nfc/handover/server.py was parked in threading.Condition.wait (waiting for the LLC):
+a parked serving thread can only be woken by new input, so a request that has crossed completely and is not in the
+book by then will never be delivered.  The thread look can only withhold a verdict (-> INCONCLUSIVE), never make one.
 
 Blocked calls: a client thread that is still inside a call although the wire has been idle for longer than any
 time-out is INCONCLUSIVE (stack + socket states in the reason) unless (1) the same connection already has a violation
@@ -56,7 +70,10 @@ RULE = ("a case is one transfer (SNEP put, SNEP get, handover request+select) ex
         "initiator or on the target end, explicit or implicit SNEP connection, 1-4 transfers per connection, 1-2 "
         "concurrent connections per batch, several batches per link; message sizes 0, 3, small, random up to 6 "
         "connection MIUs and every offset -7..+7 around k*MIU measured both on the NDEF octets and on the SNEP "
-        "message (header included); acceptable-length limits (server max_acceptable_length, client "
+        "message (header included); about 40 % of the SNEP connections are 'chains': explicit connect(), 2-5 "
+        "operations whose whole SNEP message (get response, get request, put request; header included) is "
+        "k*MIU-7..k*MIU+7 with -1/0/+1 weighted, every one followed by at least one more operation on the same "
+        "connection, all within the acceptable lengths; acceptable-length limits (server max_acceptable_length, client "
         "max_ndef_msg_recv_size) placed at size-7..size+7.  Distinct = (protocol, kind, size(s), connection MIUs, "
         "role, aggregation flags, window sizes, limit relation); non-trivial = both ends of the transfer reached the "
         "comparison of the octets at the receiving application.  Part (b) repeats the scenarios (one connection at "
@@ -64,16 +81,20 @@ RULE = ("a case is one transfer (SNEP put, SNEP get, handover request+select) ex
 ASSUMPTIONS = [
     "vf.sim.llcpair.ThreadedPair delivers every LLCP frame unchanged and in order (it replaces NFC-DEP and the radio)",
     "ndeflib encodes the generated records canonically: encode(decode(octets)) == octets is verified for every generated message, so records handed to/returned by the application hooks stand for exactly those octets",
-    "a 'lost' verdict needs the client call to have reported success, the link to be alive and the wire to have been idle (SYMM only) for a grace period; a client result that came from a wall-clock time-out is inconclusive, never a violation",
+    "a 'lost' verdict needs the client call to have completed with success, the link to be alive and quiescent (wire idle = SYMM only, and for calls that ended without a response additionally every SNEP/handover server thread parked waiting for input) and the message absent from the server application's record; whether the client's internal time-out elapsed does not enter the verdict",
+    "a client call that gave up (get -> None) by its time-out is a violation only when the quiescent link shows that the request crossed completely and was never delivered, or that the response never crossed completely; a response that did cross completely after the client gave up stays inconclusive",
     "a SNEP Get request whose NDEF message fits the server's max_acceptable_length but whose information field (4 octet acceptable-length + NDEF) does not is outside the verdict (nfcpy refuses it; the property statement does not decide it)",
     "RW=0 and socket MIU < 128 are outside the domain",
 ]
 REQUIRED = ["snep_put_checked", "snep_get_checked", "ho_request_checked", "ho_response_checked",
             "snep_put_oversize_refused", "snep_get_excess_refused", "fragmented_requests", "fragmented_responses",
-            "wire_I_pdus", "wire_snep_continue", "wire_snep_reject"]
+            "wire_I_pdus", "wire_snep_continue", "wire_snep_reject", "followed_boundary_ops",
+            "followed_get_response_exactly_k_miu"]
 
-CALL_TIMEOUT = 4.0          # timeout argument given to put/get/recv_octets (nfcpy waits on it with real time)
+CALL_TIMEOUT = 3.0          # timeout argument given to put/get/recv_octets (nfcpy waits on it with real time)
 SETTLE_SYMM = 4             # consecutive SYMM frames that count as "wire idle"
+QUIESCE_ROUNDS = 12         # looks at wire + server threads before "not quiescent" (-> inconclusive)
+CHAIN_SHARE = 0.4           # share of SNEP connections generated as boundary chains
 
 SVC_NAMES = ["urn:nfc:sn:snep", "urn:nfc:xsn:vf.c06:lim"]
 SNEP_DEFAULT_MAX = 0x100000
@@ -408,6 +429,20 @@ class Link:
             time.sleep(0.002)
         return False
 
+    def quiesce(self):
+        """True when the link is quiescent: alive, wire idle (SETTLE_SYMM SYMM frames) at two looks in a row with no
+        other frame in between, and at both looks every SNEP/handover server thread parked waiting for input.
+        Bounded by looks, not by time; False = not established (the caller reports INCONCLUSIVE, never a verdict)"""
+        for _ in range(QUIESCE_ROUNDS):
+            if not self.alive():
+                return False
+            if not (self.settle() and server_threads_parked()):
+                continue
+            n = len(self.frames)
+            if self.settle() and server_threads_parked() and len(self.frames) == n and self.alive():
+                return True
+        return False
+
     def leaves(self, f0, f1):
         """decoded leaf PDUs of frames[f0:f1] as (direction, dict)"""
         out = []
@@ -469,6 +504,57 @@ class Edges:
         return self.pool.pop()
 
 
+class ChainEdges:
+    """(k, offset) for boundary chains: every offset -7..+7 for k = 1..3, offsets -1/0/+1 at k = 1, 1, 2 again twice
+    (63 entries per cycle, 5 of them the exact single-fragment size k=1, offset 0)"""
+    def __init__(self, rng):
+        self.rng, self.pool = rng, []
+
+    def next(self):
+        if not self.pool:
+            self.pool = [(k, d) for k in (1, 2, 3) for d in EDGE] + [(k, d) for k in (1, 1, 2) for d in (-1, 0, 1)] * 2
+            self.rng.shuffle(self.pool)
+        return self.pool.pop()
+
+
+def gen_chain(rng, cfg, end, cedges, mids):
+    """an explicit SNEP connection whose operations put whole SNEP messages (header included) of k*MIU-7..k*MIU+7
+    octets on the connection - get responses (6 octet header, client's receive MIU), put requests (6) and get requests
+    (10, server's receive MIU) - each followed by at least one more operation; everything within the acceptable
+    lengths, so that every operation has to be delivered and answered in full"""
+    conn = {"proto": "snep", "end": end, "svc": 0 if rng.random() < 0.75 else 1, "implicit": False, "tuned": None,
+            "chain": True}
+    if rng.random() < 0.5:
+        conn["tuned"] = {"miu": rng.choice([128, 129, 200, 248, 2175, rng.randint(128, 2175)]),
+                         "rw": rng.choice([1, 2, 15, rng.randint(1, 15)])}
+    up, down = conn_mius(cfg, conn)
+    L = cfg["snep"][other(end)][conn["svc"]]["max_len"]
+    nops = rng.choice([2, 3, 3, 4, 5])
+    ops = []
+    for i in range(nops):
+        k, d = cedges.next()
+        if rng.random() < (0.6 if i < nops - 1 else 0.3):
+            nr = max(0, k * down + d - 6)
+            if rng.random() < 0.7:
+                nq = rng.choice([3, 20, rng.randint(4, 60)])
+            else:
+                k2, d2 = cedges.next()
+                nq = max(0, k2 * up + d2 - 10)
+            if L is not None and nq + 4 > L:
+                nq = max(0, L - 4 - rng.randrange(8))
+            ops.append({"op": "get", "nq": feasible_ndef_size(nq), "nr": feasible_ndef_size(nr), "mid": next(mids),
+                        "rmid": next(mids)})
+        else:
+            n = max(0, k * up + d - 6)
+            if L is not None and n > L:
+                n = max(0, L - rng.randrange(8))
+            ops.append({"op": "put", "n": feasible_ndef_size(n), "mid": next(mids)})
+    top = max([op["nr"] for op in ops if op["op"] == "get"] + [0])
+    conn["acc"] = top + rng.choice([0, 0, 1, 7, 1000])       # every answer is acceptable, often exactly
+    conn["ops"] = ops
+    return conn
+
+
 def pick_size(rng, edges, miu, hdr, floor=0):
     """a message size aimed at a fragment boundary of a connection with MIU `miu` and protocol header `hdr`"""
     r = rng.random()
@@ -524,12 +610,18 @@ def gen_script(rng, cfg, nbatches, edges, mids):
     # connections with several handover requests only on about a third of the links, so that most links live
     # through their whole script even while that sub-case has an open finding (a violation ends the link)
     ho_multi = rng.random() < 0.35
+    cedges = getattr(edges, "chain", None)
+    if cedges is None:
+        cedges = edges.chain = ChainEdges(rng)
     for _ in range(nbatches):
         nconn = 1 if rng.random() < 0.7 else 2
         batch = []
         for _c in range(nconn):
             end = rng.choice("AB")
-            if rng.random() < 0.62:
+            r = rng.random()
+            if r < 0.62 * CHAIN_SHARE:
+                conn = gen_chain(rng, cfg, end, cedges, mids)
+            elif r < 0.62:
                 conn = {"proto": "snep", "end": end, "svc": 0 if rng.random() < 0.55 else 1}
                 conn["implicit"] = conn["svc"] == 0 and rng.random() < 0.3
                 conn["tuned"] = None
@@ -693,6 +785,29 @@ def thread_stack(th):
     return "".join(traceback.format_stack(fr)[-8:]) if fr is not None else "?"
 
 
+_SERVER_FILES = ("/nfc/snep/server.py", "/nfc/handover/server.py")
+
+
+def server_threads_parked():
+    """True when every thread that is inside the SNEP / handover server code is parked in Condition.wait (it waits
+    for the LLC: accept(), poll(), recv(), send() with a full window).  Looks at file names of the frames only.
+    Used as a guard that can only withhold a 'never delivered' verdict."""
+    me = threading.get_ident()
+    for tid, inner in sys._current_frames().items():
+        if tid == me:
+            continue
+        f = inner
+        while f is not None:
+            if f.f_code.co_filename.replace("\\", "/").endswith(_SERVER_FILES):
+                break
+            f = f.f_back
+        if f is None:
+            continue                # not a server thread
+        if not (inner.f_code.co_filename.replace("\\", "/").endswith("/threading.py") and inner.f_code.co_name == "wait"):
+            return False
+    return True
+
+
 # ---------------------------------------------------------------------------------------------------------------
 # evaluation
 def classify(got, msg, history):
@@ -743,12 +858,21 @@ class Evaluator:
         link, R = self.link, self.R
         cand = self.entries(srv_end, svc, layer, o["seq0"])
         match = [e for e in cand if e["octets"] == msg and e["kind"] == kind and e["seq"] < o["seq1"]]
+        quiescent = None
         if not match:
             late = [e for e in cand if e["octets"] == msg and e["kind"] == kind]
             if not late and success:
                 link.settle()
                 cand = self.entries(srv_end, svc, layer, o["seq0"])
                 late = [e for e in cand if e["octets"] == msg and e["kind"] == kind]
+            if not late and success and timed_out:
+                # the call completed with "success" without a response (its time-out ran out): decided on the
+                # quiescent link - the book is read after quiescence has been established
+                quiescent = link.quiesce()
+                cand = self.entries(srv_end, svc, layer, o["seq0"])
+                late = [e for e in cand if e["octets"] == msg and e["kind"] == kind]
+                if late:
+                    R.count("late_delivery_after_client_timeout")
             match = late[:1]
             if match:
                 R.count("late_delivery")
@@ -786,10 +910,28 @@ class Evaluator:
         if not success:
             return None           # caller reports the client-side failure
         if timed_out:
-            if self.wire_request_incomplete(conn, opi, o, pfx + "/lost-after-success"):
+            # (a) the call returned success, (b) the quiescent link never delivered: "arrives exactly once" is broken
+            # whatever made the client say success; the wire only names the mechanism
+            if not quiescent:
+                R.inconc("%s %s: client call reported success without a response and nothing was delivered, but the link "
+                         "is not quiescent (alive=%s, server threads parked=%s)" % (proto, kind, link.alive(), server_threads_parked()))
                 return False
-            R.inconc("%s %s: client call ended by its %.0f s time-out and nothing was delivered (link alive=%s)"
-                     % (proto, kind, CALL_TIMEOUT, link.alive()))
+            R.count("timed_out_calls_judged_at_quiescence")
+            fate = self.request_fate(conn, conn["ops"][opi], o)
+            if fate is None:
+                self.viol(pfx + "/lost-after-success/no-response", "client call reported success (no response arrived), the link is "
+                          "quiescent, the peer application never got the %d octet %s message" % (len(msg), kind), conn, opi)
+            elif not fate["complete"]:
+                self.viol(pfx + "/lost-after-success/request-incomplete-on-wire", "the client call reported success (no response "
+                          "arrived) and the link is quiescent, but only %d information octets went to the server for a %d octet "
+                          "request (first difference at octet %d)" % (fate["sent"], fate["need"], fate["diff"]), conn, opi)
+            else:
+                self.viol(pfx + "/lost-after-success/request-complete-on-wire", "client call reported success (no response arrived); "
+                          "the whole %d octet request crossed the link in %d I PDU(s) (%s by the server's connection), the "
+                          "server sent %d I PDU(s) back, the link is quiescent with every server thread waiting for input - the "
+                          "peer application never got the %d octet %s message"
+                          % (fate["need"], fate["pdus"], "all acknowledged" if fate["acked"] else "not all acknowledged",
+                             fate["down"], len(msg), kind), conn, opi)
             return False
         if not link.alive() or not link.settle():
             R.inconc("%s %s: message missing at the peer application but the link is not alive/idle" % (proto, kind))
@@ -838,6 +980,91 @@ class Evaluator:
             elif d != d_up and (sap is None or p["dsap"] == sap):
                 down += p["data"]
         return bytes(up), bytes(down)
+
+    def wire_pdus(self, conn, o):
+        """I / RR / RNR PDUs of this connection since the call began, in wire order, as (up?, pdu); None when the
+        frames cannot be attributed (concurrent batch without a known client SAP)"""
+        res = conn.get("_res") or {}
+        sap = res.get("sap")
+        if not conn.get("_single") and sap is None:
+            return None
+        d_up = "A>B" if conn["end"] == "A" else "B>A"
+        out = []
+        for d, p in self.link.leaves(o["f0"], len(self.link.frames)):
+            if p["t"] not in ("I", "RR", "RNR"):
+                continue
+            if d == d_up and (sap is None or p["ssap"] == sap):
+                out.append((True, p))
+            elif d != d_up and (sap is None or p["dsap"] == sap):
+                out.append((False, p))
+        return out
+
+    def request_fate(self, conn, op, o):
+        """what the wire shows about the request of one call: did all its octets cross, in how many I PDUs, were they
+        acknowledged by the server's data link connection (N(R) moves when the serving thread's recv() has taken
+        them), how many I PDUs came back.  None = frames not attributable"""
+        pdus = self.wire_pdus(conn, o)
+        if pdus is None:
+            return None
+        req = wire_request(conn, op)
+        up = bytearray()
+        npdus, last_ns, last_at = 0, None, None
+        for i, (is_up, p) in enumerate(pdus):
+            if is_up and p["t"] == "I" and len(up) < len(req):
+                up += p["data"]
+                npdus += 1
+                last_ns, last_at = p["ns"], i
+        k = 0
+        while k < min(len(up), len(req)) and up[k] == req[k]:
+            k += 1
+        complete = bytes(up[:len(req)]) == req
+        acked, down = False, 0
+        if complete and last_at is not None:
+            for is_up, p in pdus[last_at + 1:]:
+                if not is_up:
+                    if p["nr"] == (last_ns + 1) % 16:
+                        acked = True
+                    if p["t"] == "I":
+                        down += 1
+        self.R.count("timed_out_calls_checked_on_wire")
+        return {"complete": complete, "sent": len(up), "need": len(req), "diff": k, "pdus": npdus, "acked": acked, "down": down}
+
+    def snep_codes_since(self, conn, o):
+        """response codes of the header-only SNEP responses the server sent to this connection since the call began
+        (frames up to now, not only up to the end of the call); None when not attributable"""
+        pdus = self.wire_pdus(conn, o)
+        if pdus is None or conn["proto"] != "snep":
+            return None
+        codes = []
+        for is_up, p in pdus:
+            b = p.get("data", b"") if p["t"] == "I" else b""
+            if not is_up and len(b) == 6 and b[0] >> 4 == 1 and b[2:6] == b"\x00\x00\x00\x00":
+                codes.append(b[1])
+        return codes
+
+    def never_delivered(self, conn, opi, o, srv_end, svc, layer, msg, kind, sigpfx, text):
+        """a call that gave up by its time-out although the message was within every limit: True (reported) when the
+        quiescent link shows that the whole request crossed and the server application was never called with it"""
+        link = self.link
+        if not link.quiesce():
+            return False
+        if [e for e in self.entries(srv_end, svc, layer, o["seq0"], unclaimed=False) if e["octets"] == msg and e["kind"] == kind]:
+            self.R.count("late_delivery_after_client_timeout")
+            return False                 # delivered after the client had given up: a slow run, nothing to conclude
+        self.R.count("timed_out_calls_judged_at_quiescence")
+        fate = self.request_fate(conn, conn["ops"][opi], o)
+        if fate is not None and not fate["complete"]:
+            return False                 # (reported by wire_request_incomplete before; kept for safety)
+        if fate is None:
+            self.viol(sigpfx + "/no-response", "%s; the link is quiescent and the server application was never called with the "
+                      "message" % text, conn, opi)
+        else:
+            self.viol(sigpfx + "/request-complete-on-wire", "%s; the whole %d octet request crossed the link in %d I PDU(s) (%s by "
+                      "the server's connection), the server sent %d I PDU(s) back, the link is quiescent with every server thread "
+                      "waiting for input - the server application was never called with the message"
+                      % (text, fate["need"], fate["pdus"], "all acknowledged" if fate["acked"] else "not all acknowledged",
+                         fate["down"]), conn, opi)
+        return True
 
     def wire_request_incomplete(self, conn, opi, o, sigpfx):
         """a call ended by its time-out: if the link is idle and the octets that crossed the wire are not the whole
@@ -941,6 +1168,8 @@ def evaluate_batch(ev, batch, results):
             if (res["send_miu"], res["recv_miu"]) != model:
                 R.count("miu_model_mismatch")
         for opi, (op, o) in enumerate(zip(conn["ops"], res["ops"])):
+            if opi > 0 and conn["proto"] == "snep" and not conn.get("implicit"):
+                note_followed(R, cfg, conn, res, conn["ops"][opi - 1])
             ok = eval_op(ev, conn, res, opi, op, o, srv_end, batch_msgs, single)
             link.history.add(op["_msg"])
             if "_resp" in op:
@@ -961,6 +1190,33 @@ def evaluate_batch(ev, batch, results):
                         e["claimed"] = True
                 break
     return oversize_seen
+
+
+def note_followed(R, cfg, conn, res, prev):
+    """evidence: a verified operation whose whole SNEP message (header included) ended within 7 octets of a multiple
+    of the connection MIU was followed by a further operation on the same connection (which is judged next)"""
+    if not prev.get("_full"):
+        return
+    up_miu, down_miu = res.get("send_miu"), res.get("recv_miu")
+    if up_miu is None:
+        up_miu, down_miu = conn_mius(cfg, conn)
+    if prev["op"] == "put":
+        parts = [("put_request", len(prev["_msg"]) + 6, up_miu)]
+    else:
+        parts = [("get_request", len(prev["_msg"]) + 10, up_miu), ("get_response", len(prev["_resp"]) + 6, down_miu)]
+    hit = False
+    for name, n, miu in parts:
+        k = (n + miu // 2) // miu
+        d = n - k * miu
+        if k >= 1 and -7 <= d <= 7:
+            hit = True
+            R.seen("followed_%s_offset" % name, d)
+            if d == 0:
+                R.count("followed_%s_exactly_k_miu" % name)
+                if k == 1:
+                    R.count("followed_%s_exactly_one_miu" % name)
+    if hit:
+        R.count("followed_boundary_ops")
 
 
 def eval_op(ev, conn, res, opi, op, o, srv_end, batch_msgs, single):
@@ -1029,6 +1285,7 @@ def eval_op(ev, conn, res, opi, op, o, srv_end, batch_msgs, single):
                         "put of %d octets (server accepts %d) -> %s%s" % (n, L, outcome_tag(out), "" if r is None else " although the server application got the message"), conn, opi)
                 return False
             R.count("snep_put_checked")
+            op["_full"] = True
             edge_note("put", n, 6, up_miu)
             if n + 6 > up_miu:
                 R.count("fragmented_requests")
@@ -1051,6 +1308,14 @@ def eval_op(ev, conn, res, opi, op, o, srv_end, batch_msgs, single):
             return False
         if not (out == ("ret", False) or (out[0] == "snep" and out[1] >= 0xC0)):
             if out == ("ret", True) and timed_out:
+                # success only because no response arrived in time: on the quiescent link either the error response
+                # never went out (the refusal clause is broken) or it came after the client had given up (undecided)
+                codes_now = ev.snep_codes_since(conn, o) if link.quiesce() else None
+                if codes_now is not None and not any(c >= 0xC0 for c in codes_now):
+                    R.count("timed_out_calls_judged_at_quiescence")
+                    ev.viol("snep/put/oversize/no-error-response-on-wire", "put of %d octets to a server accepting %d reported success "
+                            "(no response arrived) and the quiescent link shows no SNEP error response" % (n, L), conn, opi)
+                    return False
                 R.inconc("over-size put: client call ended by its time-out")
                 return False
             tag = "reported-success" if out == ("ret", True) else "outcome-" + outcome_tag(out)
@@ -1109,7 +1374,10 @@ def eval_op(ev, conn, res, opi, op, o, srv_end, batch_msgs, single):
             return False
         if r is None:
             if out == ("ret", None) and timed_out:
-                if not ev.wire_request_incomplete(conn, opi, o, "snep/get/lost"):
+                if not ev.wire_request_incomplete(conn, opi, o, "snep/get/lost") and not ev.never_delivered(
+                        conn, opi, o, srv_end, svc, "raw", q, "get", "snep/get/refused-within-limit/returned-None",
+                        "get request of %d octets (server accepts %d), answer of %d octets (client accepts %d) -> the call "
+                        "gave up and returned None" % (nq, L, nr, A)):
                     R.inconc("snep get ended by the client time-out")
                 return False
             ev.viol("snep/get/refused-within-limit/%s" % outcome_tag(out), "get request of %d octets (server accepts %d) -> %s, nothing delivered"
@@ -1118,6 +1386,7 @@ def eval_op(ev, conn, res, opi, op, o, srv_end, batch_msgs, single):
         if nr <= A:
             if out[0] == "ret" and out[1] == rsp:
                 R.count("snep_get_checked")
+                op["_full"] = True
                 edge_note("get_request", nq, 10, up_miu)
                 edge_note("get_response", nr, 6, down_miu)
                 if nq + 10 > up_miu:
@@ -1149,6 +1418,12 @@ def eval_op(ev, conn, res, opi, op, o, srv_end, batch_msgs, single):
             return False
         if out != ("snep", 0xC1):
             if out == ("ret", None) and timed_out:
+                codes_now = ev.snep_codes_since(conn, o) if link.quiesce() else None
+                if codes_now is not None and 0xC1 not in codes_now:
+                    R.count("timed_out_calls_judged_at_quiescence")
+                    ev.viol("snep/get/excess/no-error-response-on-wire", "get with acceptable length %d, answer %d octets: the call gave "
+                            "up and the quiescent link shows no Excess Data response" % (A, nr), conn, opi)
+                    return False
                 R.inconc("snep get ended by the client time-out")
                 return False
             ev.viol("snep/get/excess/outcome-%s" % outcome_tag(out), "get with acceptable length %d, answer %d octets -> %s instead of SnepError(C1h)"
